@@ -183,6 +183,25 @@ def leg_pandas(ns, res, spec):
             if dfb is not None:
                 dfb.columns = odd_labels(len(B[0]), 1)
             res.count('pandas_runs_non_string_labels')
+        # the index is part of the caller's frame too: named, named like a column (set_index(..., drop=False)), two-level, not the default range, and frame metadata
+        def odd_index(df, kind):
+            if kind == 1:
+                df.index.name = 'idx'
+            elif kind == 2:
+                df = df.set_index(df.columns[0], drop=False)
+            elif kind == 3:
+                df.index = list(range(len(df) * 10, 0, -10))
+            elif kind == 4 and len(df.columns) >= 2:
+                df = df.set_index([df.columns[0], df.columns[1]], drop=False)
+            elif kind == 5:
+                df.columns.name = 'cols'
+                df.attrs['source'] = 'caller'
+            return df
+        dfa = odd_index(dfa, (n // 3) % 6)
+        if dfb is not None:
+            dfb = odd_index(dfb, (n // 5) % 6)
+        if (n // 3) % 6:
+            res.count('pandas_runs_non_default_index')
         snap_a, snap_b = dfa.copy(deep=True), (dfb.copy(deep=True) if dfb is not None else None)
         err = None
         try:
@@ -198,8 +217,9 @@ def leg_pandas(ns, res, spec):
         res.nontrivial('pd', qtext, repr(A))
 
         def same(x, y):
-            return (x.equals(y) and list(x.dtypes) == list(y.dtypes) and list(x.index) == list(y.index) and list(x.columns) == list(y.columns)
-                    and [type(c) for c in x.columns] == [type(c) for c in y.columns] and type(x.columns) is type(y.columns))
+            return (x.equals(y) and list(x.dtypes) == list(y.dtypes) and x.index.equals(y.index) and list(x.columns) == list(y.columns)
+                    and [type(c) for c in x.columns] == [type(c) for c in y.columns] and type(x.columns) is type(y.columns)
+                    and list(x.index.names) == list(y.index.names) and list(x.columns.names) == list(y.columns.names) and type(x.index) is type(y.index) and x.attrs == y.attrs)
         if not same(dfa, snap_a) or (dfb is not None and not same(dfb, snap_b)):
             res.violation('py:dataframe-modified:' + common.feature_sig(case['q']), '[py/pandas] dataframe changed by %s (error=%s): before %r after %r' % (qtext, err, snap_a.values.tolist(), dfa.values.tolist()), dict(case, query_text=qtext, engine='py', leg='pandas'))
         if n % 999 == 0:
@@ -606,8 +626,8 @@ def run_shard(spec, res):
 
 def summarize(tier, seed, m):
     return {
-        'rule': 'the query generators of C01-C05 (every query shape) plus deliberately failing variants (syntax error, parsing error, runtime error, unknown join table), each executed (1) through rbql.query with probes and snapshots, (2) through the icontract-armed query_table, (3) with the CSV writer attached to list input, (3b) with no input iterator at all - the table named in a FROM clause and taken from the ListTableRegistry of the caller -, (4) on the JS engine with array snapshots; list tables with numbers, None and mutable list-valued cells under %d query texts (stars, UNNEST, every aggregate, list arithmetic and methods, UPDATE, joins) through query_table, the CSV writer as sink, a mutating probe sink and pandas object columns, compared with fully deep snapshots; pandas dataframes with deep copies; a file-backed sqlite database with recording connection, authorizer log, total_changes and file hash under %d hostile table identifiers (in the query text, as input table, and passed directly to SqliteRecordIterator); query_csv with file fingerprints and an audit-hook log of every open() (one run in five with the input path spelled relatively / through .., and the output path naming the directory that holds the input, in several spellings, or a path below a missing directory); the CLI under strace. distinct_nontrivial = distinct executed (query, source) cases.' % (len(RICH_QUERIES), len(HOSTILE_IDS)),
-        'required': ['from_clause_registry_runs', 'js_column_name_array_checks', 'list_runs_with_header_modifier', 'csv_runs_with_directory_or_odd_output_path', 'rich_cases_with_tuple_rows', 'js_rich_csv_sink_runs_succeeding', 'js_rich_table_runs', 'rich_runs_failing', 'rich_runs_succeeding', 'rich_runs:csv-writer-quoted', 'rich_runs:query+mutating-sink', 'rich_runs:pandas', 'list_runs_failing', 'list_runs_succeeding', 'contract_evaluations', 'csv_writer_on_list_runs', 'column_name_list_checks', 'pandas_runs_succeeding', 'pandas_runs_failing', 'pandas_runs_non_string_labels', 'sqlite_runs_hostile', 'sqlite_runs_with_open_transaction', 'sqlite_sql_statements_observed', 'sqlite_authorizer_events', 'sqlite_direct_constructor_runs', 'csv_runs_succeeding', 'csv_runs_failing', 'csv_open_events_observed', 'strace_cli_runs', 'strace_opens_of_sources_observed', 'js_cases'],
+        'rule': 'the query generators of C01-C05 (every query shape) plus deliberately failing variants (syntax error, parsing error, runtime error, unknown join table), each executed (1) through rbql.query with probes and snapshots, (2) through the icontract-armed query_table, (3) with the CSV writer attached to list input, (3b) with no input iterator at all - the table named in a FROM clause and taken from the ListTableRegistry of the caller -, (4) on the JS engine with array snapshots; list tables with numbers, None and mutable list-valued cells under %d query texts (stars, UNNEST, every aggregate, list arithmetic and methods, UPDATE, joins) through query_table, the CSV writer as sink, a mutating probe sink and pandas object columns, compared with fully deep snapshots; pandas dataframes with deep copies (values, dtypes, labels, index values, index / column level names, attrs; the index named, named like a column, two-level, non-default); a file-backed sqlite database with recording connection, authorizer log, total_changes and file hash under %d hostile table identifiers (in the query text, as input table, and passed directly to SqliteRecordIterator); query_csv with file fingerprints and an audit-hook log of every open() (one run in five with the input path spelled relatively / through .., and the output path naming the directory that holds the input, in several spellings, or a path below a missing directory); the CLI under strace. distinct_nontrivial = distinct executed (query, source) cases.' % (len(RICH_QUERIES), len(HOSTILE_IDS)),
+        'required': ['from_clause_registry_runs', 'js_column_name_array_checks', 'list_runs_with_header_modifier', 'csv_runs_with_directory_or_odd_output_path', 'rich_cases_with_tuple_rows', 'js_rich_csv_sink_runs_succeeding', 'js_rich_table_runs', 'rich_runs_failing', 'rich_runs_succeeding', 'rich_runs:csv-writer-quoted', 'rich_runs:query+mutating-sink', 'rich_runs:pandas', 'list_runs_failing', 'list_runs_succeeding', 'contract_evaluations', 'csv_writer_on_list_runs', 'column_name_list_checks', 'pandas_runs_succeeding', 'pandas_runs_failing', 'pandas_runs_non_string_labels', 'pandas_runs_non_default_index', 'sqlite_runs_hostile', 'sqlite_runs_with_open_transaction', 'sqlite_sql_statements_observed', 'sqlite_authorizer_events', 'sqlite_direct_constructor_runs', 'csv_runs_succeeding', 'csv_runs_failing', 'csv_open_events_observed', 'strace_cli_runs', 'strace_opens_of_sources_observed', 'js_cases'],
         'assumptions': ['hostile identifiers are only required not to reach sqlite and not to change the database; the error class they produce is not demanded', 'sqlite3.connect itself opens the database file read-write; the file hash (not the open mode) decides for sqlite'],
     }
 
